@@ -321,6 +321,144 @@ def pb2_tables(ctx, msgs, enums, repo):
     return n
 
 
+# ------------------------------------------------------------------------- proto3 implicit defaults
+ZERO_CONSTS = {'0f64', '0f32', '0_u64', '0_i64', '0_u32', '0_i32', 'false', '""', '-0f64'} - {'-0f64'}
+
+
+def _const_of(body, op, depth=6):
+    """the constant an operand denotes (through copies / refs / promoteds), or None"""
+    for _ in range(depth):
+        if op['k'] == 'const':
+            v = op['v']
+            if '::promoted[' in v or v.endswith('::') or 'promoted' in v:
+                return None
+            return v
+        if op['k'] not in ('copy', 'move'): return None
+        defs = [d for d in body.defs_of(op['pl']['l']) if not (d[0] == 'stmt' and d[2]['dst']['p'])]
+        if len(defs) != 1 or defs[0][0] != 'stmt': return None
+        rv = defs[0][2]['rv']
+        if rv['k'] == 'use': op = rv['ops'][0]; continue
+        return None
+    return None
+
+
+def _enum_default_is_zero(F, op_body, op):
+    """operand = `<E as Default>::default() as i32` and E's Default returns the variant numbered 0"""
+    if op['k'] not in ('copy', 'move'): return False
+    defs = op_body.defs_of(op['pl']['l'])
+    if len(defs) != 1 or defs[0][0] != 'stmt' or defs[0][2]['rv']['k'] != 'cast': return False
+    src = defs[0][2]['rv']['ops'][0]
+    if src['k'] not in ('copy', 'move'): return False
+    d2 = op_body.defs_of(src['pl']['l'])
+    if len(d2) != 1 or d2[0][0] != 'stmt' or d2[0][2]['rv']['k'] != 'discr': return False
+    d3 = op_body.defs_of(d2[0][2]['rv']['pl']['l'])
+    if len(d3) != 1 or d3[0][0] != 'call': return False
+    call = d3[0][2]; nm = call['r'] or call['f']
+    m = re.fullmatch(r'<(v1::[\w:]+) as std::default::Default>::default', nm)
+    if not m: return False
+    eb = F.one(m.group(1), 'default', trait='std::default::Default'); adt = F.adts.get(m.group(1))
+    if eb is None or adt is None: return False
+    for bi, st in eb.stmts():
+        if st['dst']['l'] == 0 and not st['dst']['p'] and st['rv']['k'] == 'agg':
+            vn = st['rv'].get('variant')
+            name = st['rv'].get('adt', '')
+            for v in adt['variants']:
+                if (vn is not None and v.get('idx') == vn) or name.endswith('::' + v['name']):
+                    return v['discr'] == 0
+    return False
+
+
+def default_rules(ctx, msgs, enums):
+    """proto3 has no explicit defaults: a singular scalar / enum field that is absent on the wire means the zero value,
+    and a conforming writer omits exactly the zero value.  prost implements both with one per-field default
+    (`#[prost(default = ..)]` changes it): the value `encode_raw` compares with before writing, and the value
+    `Default::default()` (what `decode` starts from) puts in the field.  Both must be the zero value (seed C07-11)."""
+    F = ctx.F; R = 'C07.default'
+    for full, m in sorted(msgs.items()):
+        rp = rust_path(full)
+        enc = F.one(rp, 'encode_raw', trait='prost::Message'); dfl = F.one(rp, 'default', trait='std::default::Default'); adt = F.adts.get(rp)
+        todo = []
+        for f in m['fields']:
+            if f['oneof'] or f['label'] != 'singular' or isinstance(f['type'], tuple): continue
+            kind = 'scalar' if f['type'] in PP.SCALARS else (PP.resolve(msgs, enums, full, f['type']) or ('?',))[0]
+            if kind not in ('scalar', 'enum'): continue
+            todo.append((f, kind))
+        if not todo: continue
+        if enc is None or dfl is None or adt is None:
+            ctx.lost(R + '/' + full, 'encode_raw / Default impl of %s' % rp); continue
+        ctx.fn(dfl)
+        names = [x['name'] for x in adt['variants'][0]['fields']]
+        agg = [st for bi, st in dfl.stmts() if st['dst']['l'] == 0 and not st['dst']['p'] and st['rv']['k'] == 'agg']
+        for f, kind in todo:
+            rid = '%s/%s.%s' % (R, full, f['name']); rf = rust_field(f['name'])
+            # ---- the value the writer omits
+            call = None
+            for c in enc.calls:
+                if ENC_RE.match(c.name) and f['number'] in [tag_of(a) for a in c.args]: call = c
+            why = None
+            if call is None: why = 'no encode call with tag %d' % f['number']
+            else:
+                guard = None
+                cands = []
+                for b in enc.live:
+                    t = enc.blocks[b]['term']
+                    if t['k'] == 'switch' and b != call.bb and enc.dominates(b, call.bb):
+                        tgs = [tg for _, tg in t['ts']] + [t['else']]
+                        if not all(call.bb in enc.reach([tg]) | {tg} for tg in tgs): cands.append((len(enc.dom[b]), b, t))
+                if cands:
+                    _, b, t = max(cands); guard = (b, t)
+                if guard is None: why = 'the encode call is not guarded by a comparison with the default'
+                else:
+                    d = guard[1]['d']; ok = False
+                    defs = enc.defs_of(d['pl']['l']) if d['k'] in ('copy', 'move') else []
+                    if len(defs) == 1 and defs[0][0] == 'stmt' and defs[0][2]['rv']['k'] == 'bin' and defs[0][2]['rv'].get('op') == 'Ne':
+                        a, bq = defs[0][2]['rv']['ops']
+                        for x, y in ((a, bq), (bq, a)):
+                            if field_of(enc, x) == rf or (x['k'] in ('copy', 'move') and any(fl == rf for _, fl in T.access_path(enc, x)[0])):
+                                cv = _const_of(enc, y)
+                                ok = (cv in ZERO_CONSTS) if kind == 'scalar' else (cv in ZERO_CONSTS or _enum_default_is_zero(F, enc, y))
+                                if not ok: why = 'the writer omits the field when it equals %s, proto3 omits the zero value' % (cv if cv is not None else 'a computed value')
+                    elif len(defs) == 1 and defs[0][0] == 'call' and re.search(r'PartialEq<.*>>::ne$', defs[0][2]['r'] or defs[0][2]['f'] or ''):
+                        args = defs[0][2]['args']
+                        txt = None
+                        for y in args[1:]:
+                            # the other operand: a promoted holding the literal
+                            dd = enc.defs_of(y['pl']['l']) if y['k'] in ('copy', 'move') else []
+                            for _ in range(4):
+                                if len(dd) == 1 and dd[0][0] == 'stmt' and dd[0][2]['rv']['k'] in ('ref', 'use'):
+                                    rv = dd[0][2]['rv']
+                                    src = rv['pl'] if rv['k'] == 'ref' else (rv['ops'][0].get('pl') if rv['ops'][0]['k'] in ('copy', 'move') else None)
+                                    if rv['k'] == 'use' and rv['ops'][0]['k'] == 'const':
+                                        pbs = [bb for bb in F.bodies.values() if bb.kind == 'promoted' and bb.name.startswith(enc.name + '::promoted')]
+                                        lits = {st['rv']['ops'][0]['v'] for pb in pbs for _, st in pb.stmts() if st['rv']['k'] == 'use' and st['rv']['ops'][0]['k'] == 'const'}
+                                        txt = '""' if lits == {'""'} else (sorted(lits)[0] if lits else None)
+                                        break
+                                    if src is None: break
+                                    dd = enc.defs_of(src['l'])
+                                else: break
+                        ok = field_of(enc, args[0]) == rf and txt == '""'
+                        if not ok: why = 'the writer omits the field when it equals %s, proto3 omits the empty string' % txt
+                    else: why = 'guard of the encode call is not a comparison of the field with a constant'
+                    if ok: why = None
+            ctx.check(why is None, rid + '/writer-omits-zero', 'T-SCHEMA', enc.name, why or '', (call and enc.site(call.bb)) or enc.site(), tag=f['number'])
+            # ---- the value an absent field is read as
+            why = None
+            if len(agg) != 1 or rf not in names: why = 'Default::default() of %s does not build the struct in one aggregate' % rp
+            else:
+                op = agg[0]['rv']['ops'][names.index(rf)]
+                cv = _const_of(dfl, op)
+                if cv in ZERO_CONSTS: pass
+                elif kind == 'enum' and _enum_default_is_zero(F, dfl, op): pass
+                elif f['type'] in ('string', 'bytes') and op['k'] in ('copy', 'move'):
+                    dd = dfl.defs_of(op['pl']['l'])
+                    nm = (dd[0][2]['r'] or dd[0][2]['f']) if len(dd) == 1 and dd[0][0] == 'call' else ''
+                    if not re.search(r'^(std::string::String::new|<std::string::String as std::default::Default>::default|std::vec::Vec::<u8>::new|<std::vec::Vec<u8> as std::default::Default>::default)$', strip_generics_tail(nm) if False else nm):
+                        why = 'an absent field is read as the result of %s, proto3 says the empty value' % (nm or 'a computed value')
+                else: why = 'an absent field is read as %s, proto3 says the zero value' % (cv if cv is not None else 'a computed value')
+            ctx.check(why is None, rid + '/absent-reads-zero', 'T-SCHEMA', dfl.name, why or '', dfl.site(), tag=f['number'])
+    ctx.floor(R, 56)
+
+
 def check(ctx):
     repo = getattr(ctx, 'repo', '/repo')
     try:
@@ -338,6 +476,7 @@ def check(ctx):
     for k, m in msgs.items():
         nums = [f['number'] for f in m['fields']]; names = [f['name'] for f in m['fields']]
         ctx.check(len(nums) == len(set(nums)) and len(names) == len(set(names)), 'C07.schema/unique/' + k, 'T-SCHEMA', m['file'], 'duplicate field numbers or names')
+    default_rules(ctx, msgs, enums)
     history_rules(ctx, msgs, enums)
     ctx.floor('C07.rust', 150); ctx.floor('C07.python', 140); ctx.floor('C07.schema', 30)
 
